@@ -12,3 +12,4 @@ INVARIANT LawStarDenotesName
 INVARIANT LawRoundTrip
 INVARIANT LawPresence
 INVARIANT LawLifecycle
+INVARIANT Export
